@@ -119,12 +119,18 @@ WITNESSES.append({"match": r"lspmsg\.", "kind": "lsp-stdio", "props": ["C28"], "
 # can lie beyond the end of the open document
 _LIB_BAD = "// " + "padding " * 40 + "\npublic fun ok(): Int { 1 }\n" + "// more padding\n" * 8 + "fun broken( { \n"
 _LIB_WARN = "// " + "padding " * 60 + "\npublic fun ok(): Int {\n  let unused = 1\n  2\n}\n"
-for _n, _lib in (("import_of_a_file_with_a_parse_error", _LIB_BAD), ("import_of_a_file_with_a_warning", _LIB_WARN)):
+# several warnings whose offsets differ modulo 2 and 3, for a document made of two- and three-byte characters
+_LIB_WARNS = "public fun ok(): Int {\n  let a = 1\n  let bb = 1\n  let ccc = 1\n  let dddd = 1\n  let eeeee = 1\n  2\n}\n"
+_LIB_BAD_EARLY = "public fun ok(): Int { 1 }\n\nfun broken( {\nfun also_broken(a b) {}\nlet = 1\n"
+_WIDE_TAIL = "// " + "\u00e9\u20ac" * 60 + "\n"
+for _n, _lib, _tail in (("import_of_a_file_with_a_parse_error", _LIB_BAD, ""), ("import_of_a_file_with_a_warning", _LIB_WARN, ""),
+                        ("import_of_a_file_with_warnings_into_a_document_of_wide_characters", _LIB_WARNS, _WIDE_TAIL),
+                        ("import_of_a_file_with_a_parse_error_into_a_document_of_wide_characters", _LIB_BAD_EARLY, _WIDE_TAIL)):
     _uri = "file://{tmpdir}/main.gdn"
     _msgs = [{"jsonrpc": "2.0", "id": 1, "method": "initialize", "params": {}},
-             {"jsonrpc": "2.0", "method": "textDocument/didOpen", "params": {"textDocument": {"uri": _uri, "languageId": "garden", "version": 1, "text": "import \"./lib.gdn\"\n"}}},
+             {"jsonrpc": "2.0", "method": "textDocument/didOpen", "params": {"textDocument": {"uri": _uri, "languageId": "garden", "version": 1, "text": "import \"./lib.gdn\"\n" + _tail}}},
              {"jsonrpc": "2.0", "id": 2, "method": "textDocument/documentSymbol", "params": {"textDocument": {"uri": _uri}}},
-             {"jsonrpc": "2.0", "method": "textDocument/didChange", "params": {"textDocument": {"uri": _uri, "version": 2}, "contentChanges": [{"text": "import \"./lib.gdn\" as l\nl::ok()\n"}]}},
+             {"jsonrpc": "2.0", "method": "textDocument/didChange", "params": {"textDocument": {"uri": _uri, "version": 2}, "contentChanges": [{"text": "import \"./lib.gdn\" as l\nl::ok()\n" + _tail}]}},
              {"jsonrpc": "2.0", "id": 3, "method": "textDocument/hover", "params": {"textDocument": {"uri": _uri}, "position": {"line": 1, "character": 4}}},
              {"jsonrpc": "2.0", "id": 4, "method": "shutdown"}, {"jsonrpc": "2.0", "method": "exit"}]
     _or = ("(lambda got: ('responses carry ids %r; expected 1, 2, 3, 4 each once' % (got,)) if sorted(x for x in got if x in (1, 2, 3, 4)) != [1, 2, 3, 4] else '')"
